@@ -327,3 +327,86 @@ func NumProductions() int {
 	}
 	return n
 }
+
+// gapKinds returns the marker rune of each gap of t, in order.
+func gapKinds(t string) []rune {
+	var out []rune
+	inBody := 0
+	for _, r := range t {
+		switch r {
+		case '⟦':
+			inBody++
+		case '⟧':
+			inBody--
+		case '·', '¶', '¤':
+			if inBody == 0 {
+				out = append(out, r)
+			}
+		}
+	}
+	return out
+}
+
+// CommentAlts returns the alternative indexes of gap g of t that insert a
+// comment.
+func CommentAlts(t string, g int) []int {
+	kinds := gapKinds(t)
+	if g >= len(kinds) {
+		return nil
+	}
+	var alts []string
+	switch kinds[g] {
+	case '¶':
+		alts = termAlts
+	case '¤':
+		alts = openAlts
+	default:
+		return nil
+	}
+	var out []int
+	for i, a := range alts {
+		if strings.Contains(a, "#") {
+			out = append(out, i)
+		}
+	}
+	return out
+}
+
+// Render2 renders t with two gaps deviating.
+func Render2(t string, g1, a1, g2, a2 int) string {
+	// render by substituting the second gap's marker text first: simplest is
+	// to expand gap g2 into literal text and then call Render for g1 (g1<g2,
+	// so g1's index is unaffected).
+	kinds := gapKinds(t)
+	var alts []string
+	switch kinds[g2] {
+	case '·':
+		alts = inlineAlts
+	case '¶':
+		alts = termAlts
+	case '¤':
+		alts = openAlts
+	}
+	var sb strings.Builder
+	n, inBody := 0, 0
+	for _, r := range t {
+		switch r {
+		case '⟦':
+			inBody++
+		case '⟧':
+			inBody--
+		case '·', '¶', '¤':
+			if inBody == 0 {
+				if n == g2 {
+					sb.WriteString(alts[a2])
+					n++
+					continue
+				}
+				n++
+			}
+		}
+		sb.WriteRune(r)
+	}
+	s, _ := Render(sb.String(), g1, a1)
+	return s
+}
